@@ -183,3 +183,153 @@ def reverse_chen_defect(cfg, s, u, t):
     bm = build(cfg)
     rb = ReverseBrownian(bm)
     return chen_defect(rb, cfg, s, u, t)
+
+
+# ---------------------------------------------------------------------------------------------------------------
+# C04: exact covariance through the linear map noise -> output (one-hot noise), real BrownianInterval
+# ---------------------------------------------------------------------------------------------------------------
+
+class OneHot:
+    """Context manager: `brownian_interval._randn` returns basis vectors, one coordinate per distinct seed."""
+
+    def __init__(self, D):
+        self.D = D
+        self.index = {}
+
+    def __enter__(self):
+        import torchsde._brownian.brownian_interval as bi
+        self.bi = bi
+        self.saved = bi._randn
+
+        def fake(size, dtype, device, seed):
+            k = self.index.setdefault(int(seed), len(self.index))
+            if k >= self.D:
+                raise OverflowError("one-hot dimension exhausted")
+            v = torch.zeros(size, dtype=dtype)
+            v.reshape(-1)[k] = 1.0 if len(size) == 1 else 0.0
+            if len(size) != 1:
+                raise ValueError("one-hot noise expects size=(D,)")
+            return v
+
+        bi._randn = fake
+        return self
+
+    def __exit__(self, *a):
+        self.bi._randn = self.saved
+
+
+def _cBB(x, y): return min(x, y)
+def _cBZ(x, y): return y * y / 2 if y <= x else x * y - x * x / 2
+def _cZZ(x, y):
+    x, y = min(x, y), max(x, y)
+    return x ** 3 / 3 + x * x * (y - x) / 2
+
+
+def brownian_cov_WU(I, J):
+    """exact covariances of (W_I, U_I) with (W_J, U_J) for a standard Brownian motion started at 0"""
+    (a, b), (c, d) = I, J
+    # W_I = B(b)-B(a); U_I = Z(b)-Z(a)-(b-a)B(a)
+    def cW_W(): return _cBB(b, d) - _cBB(b, c) - _cBB(a, d) + _cBB(a, c)
+    def cW_U():  # Cov(W_I, U_J)
+        f = lambda x: _cBZ(x, d) - _cBZ(x, c) - (d - c) * _cBB(x, c)
+        return f(b) - f(a)
+    def cU_W():
+        f = lambda x: _cBZ(x, b) - _cBZ(x, a) - (b - a) * _cBB(x, a)
+        return f(d) - f(c)
+    def cU_U():
+        zz = _cZZ(b, d) - _cZZ(b, c) - _cZZ(a, d) + _cZZ(a, c)
+        # - (d-c) Cov(Z(b)-Z(a), B(c)) - (b-a) Cov(B(a), Z(d)-Z(c)) + (b-a)(d-c) Cov(B(a),B(c))
+        t1 = (d - c) * (_cBZ(c, b) - _cBZ(c, a))
+        t2 = (b - a) * (_cBZ(a, d) - _cBZ(a, c))
+        t3 = (b - a) * (d - c) * _cBB(a, c)
+        return zz - t1 - t2 + t3
+    return cW_W(), cW_U(), cU_W(), cU_U()
+
+
+def gram_search(rng, n_cfg, n_hist, n_pairs, tol=1e-9, D=4096):
+    """Random histories on the real object with one-hot noise; Gram matrix of (W,U) vs Brownian covariance."""
+    fails, stats = [], dict(configs=0, queries=0, pairs=0, max_defect=0.0, max_coords=0)
+    for _ in range(n_cfg):
+        cfg = random_config(rng, allow_halfway=True)
+        cfg['size'] = (D,)
+        cfg['levy'] = rng.choice(['none', 'space-time', 'space-time', 'davie'])
+        try:
+            with OneHot(D) as oh:
+                bm = build(cfg)
+                hist = random_history(rng, cfg, n_hist)
+                for a, b in hist:
+                    query(bm, a, b, cfg)
+                stats['configs'] += 1
+                stats['queries'] += len(hist)
+                for _ in range(n_pairs):
+                    I = tuple(sorted((random_time(rng, cfg), random_time(rng, cfg))))
+                    J = tuple(sorted((random_time(rng, cfg), random_time(rng, cfg))))
+                    if rng.random() < 0.3:
+                        J = I
+                    if I[0] == I[1] or J[0] == J[1]:
+                        continue
+                    WI, UI, _ = query(bm, I[0], I[1], cfg)
+                    WJ, UJ, _ = query(bm, J[0], J[1], cfg)
+                    t0 = cfg['t0']
+                    e = brownian_cov_WU((I[0] - t0, I[1] - t0), (J[0] - t0, J[1] - t0))
+                    got = [float(WI @ WJ)]
+                    exp = [e[0]]
+                    if UI is not None:
+                        got += [float(WI @ UJ), float(UI @ WJ), float(UI @ UJ)]
+                        exp += [e[1], e[2], e[3]]
+                        if I == J:  # H independent of W, Var H = h/12
+                            h = I[1] - I[0]
+                            HI = UI / h - 0.5 * WI
+                            got += [float(HI @ WI), float(HI @ HI)]
+                            exp += [0.0, h / 12]
+                    d = max(abs(g - x) for g, x in zip(got, exp))
+                    stats['pairs'] += 1
+                    stats['max_defect'] = max(stats['max_defect'], d)
+                    if d > tol:
+                        fails.append(dict(kind='gram', config=_ser(cfg), history=hist, I=I, J=J, got=got, expected=exp))
+                        break
+                stats['max_coords'] = max(stats['max_coords'], len(oh.index))
+        except (RecursionError, OverflowError):
+            stats['skipped'] = stats.get('skipped', 0) + 1
+        if len(fails) >= 3:
+            break
+    return fails, stats
+
+
+def levy_cond_moments(mode, W, H, h):
+    """exact conditional mean / variance (given W,H) of the real `_davie_foster_approximation`, entry (0,1), m = 2"""
+    import torchsde._brownian.brownian_interval as bi
+    Wt = torch.tensor([W], dtype=torch.float64)
+    Ht = torch.tensor([H], dtype=torch.float64)
+
+    def A(N):
+        return bi._davie_foster_approximation(Wt.clone(), Ht.clone(), h, mode, lambda: N.clone())[0, 0, 1].item()
+
+    z = torch.zeros(1, 2, 2, dtype=torch.float64)
+    mean = A(z)
+    var = 0.0
+    for i in range(2):
+        for j in range(2):
+            e = z.clone()
+            e[0, i, j] = 1.0
+            var += (A(e) - mean) ** 2
+    return mean, var
+
+
+def levy_search(rng, n, tol=1e-9):
+    fails, evals = [], 0
+    for _ in range(n):
+        W = [rng.gauss(0, 1), rng.gauss(0, 1)]
+        H = [rng.gauss(0, 1), rng.gauss(0, 1)]
+        h = rng.uniform(0.01, 2.0)
+        for mode in ('davie', 'foster'):
+            mean, var = levy_cond_moments(mode, W, H, h)
+            emean = H[0] * W[1] - W[0] * H[1]
+            evar = h * h / 12 if mode == 'davie' else h * h / 20 + (h / 5) * (H[0] ** 2 + H[1] ** 2)
+            evals += 1
+            if abs(mean - emean) > tol or abs(var - evar) > tol * max(1, evar):
+                fails.append(dict(kind='levy-moments', mode=mode, W=W, H=H, h=h, mean=mean, expected_mean=emean,
+                                  var=var, expected_var=evar))
+        if len(fails) >= 2:
+            break
+    return fails, evals
